@@ -325,7 +325,7 @@ Proof.
     destruct o; try exact IH. exfalso. now apply (Hnc r).
 Qed.
 
-(* the SPEC checker accepts the model's output on every history the case parser admits, outside the region of finding F27 *)
+(* the SPEC checker accepts the model's output on every history the case parser accepts, outside the region of finding F27 *)
 Theorem model_meets_spec_obs : forall c ops,
   Forall (op_ok c) ops -> no_f27 c (final_sstate c ops) -> spec_obs c ops (run_print c ops) = [].
 Proof.
